@@ -1,1 +1,439 @@
-//! C08: not implemented yet.
+//! C08 — A source only accepts fresh answers to its own pending request.
+//!
+//! Engine E-SEQ: breadth-first explicit-state search over the REAL `NtpSource`, every event
+//! sequence up to depth 6 (quick) / 10 (thorough), merged on a canonical key, for plain
+//! sources in modes V4, V5, automatic upgrade and NTS sources with negotiated V4 / V5.
+//!
+//! Events
+//! * `T` timer (emits the next request), `W4900` / `W200` virtual time passes (4.9 s keeps an
+//!   answer inside the 5 s poll window, 4.9 + 0.2 s puts it outside);
+//! * plain answers: identifier {matching the most recent request, that of the previous
+//!   request, zero, unrelated} x {v3, v4, v4+upgrade marker, v5} x mode {server, client,
+//!   symmetric active} x {stratum 1, 16, 17, KISS DENY, KISS RATE, KISS "XXXX"} = 288 datagrams, each
+//!   assembled at byte level from the request the source emitted. Delivering the same symbol
+//!   twice is a byte-identical duplicate up to the receive/transmit timestamps; delivering
+//!   "previous request" after a timer is a replay / reordered late answer; zero and unrelated
+//!   identifiers are forged origin fields;
+//! * NTS answers: {authenticated} x identifier {matching, previous, unrelated} x unique
+//!   identifier {matching, wrong, absent} x {v4, v5} x {usable, stratum 17, KISS} + two
+//!   unauthenticated ones.
+//!
+//! Oracle (from the statement): an answer yields a measurement IFF it answers the most
+//! recent request (identifier, and for NTS the unique identifier inside an authentic
+//! packet), that request has not yielded a measurement yet, it arrives less than 5 s after
+//! the request, has the version the reference automaton of C12 currently expects, is in
+//! server mode, is not a KISS code and has stratum <= 16. A measurement is exactly one
+//! (outgoing, incoming) pair carrying *this* datagram's receive / transmit timestamps; the
+//! reach bit is set iff a measurement was delivered; an answer that is not fresh (wrong
+//! identifier, late, duplicate, unexpected version) changes nothing at all.
+use std::collections::BTreeMap;
+
+use super::c12::{Facts, SpecSet};
+use super::common::{self, Ctx};
+use crate::source::verif_probe::gd::{self as rig, Ans, IdSel, Kiss, Mode, Rig, UidSel, View};
+
+const WINDOW_NS: u128 = 5_000_000_000;
+
+#[derive(Clone, Copy, Debug, PartialEq, Eq)]
+enum Ev {
+    Timer,
+    Wait(u64), // ms
+    Ans(Ans),
+}
+
+impl Ev {
+    fn code(&self) -> String {
+        match self {
+            Ev::Timer => "T".into(),
+            Ev::Wait(ms) => format!("W{ms}"),
+            Ev::Ans(a) => a.code(),
+        }
+    }
+    fn parse(s: &str) -> Option<Ev> {
+        if s == "T" {
+            Some(Ev::Timer)
+        } else if let Some(ms) = s.strip_prefix('W') {
+            ms.parse().ok().map(Ev::Wait)
+        } else {
+            Ans::parse(s).map(Ev::Ans)
+        }
+    }
+}
+
+fn alphabet(mode: Mode) -> Vec<Ev> {
+    let mut v = vec![Ev::Timer, Ev::Wait(4900), Ev::Wait(200)];
+    if !mode.nts() {
+        for id in [IdSel::Match, IdSel::Stale, IdSel::Zero, IdSel::Random] {
+            for (ver, marker) in [(4u8, false), (4, true), (5, false), (3, false)] {
+                for m in [4u8, 3, 1] {
+                    for (s, kiss) in [(1u8, Kiss::Unknown), (16, Kiss::Unknown), (17, Kiss::Unknown), (0, Kiss::Deny), (0, Kiss::Rate), (0, Kiss::Unknown)] {
+                        v.push(Ev::Ans(Ans::plain(id, ver, marker, m, s, kiss)));
+                    }
+                }
+            }
+        }
+    } else {
+        for id in [IdSel::Match, IdSel::Stale, IdSel::Random] {
+            for uid in [UidSel::Match, UidSel::Wrong, UidSel::Absent] {
+                for ver in [4u8, 5] {
+                    for (s, kiss) in [(1u8, Kiss::Unknown), (17, Kiss::Unknown), (0, Kiss::Unknown)] {
+                        v.push(Ev::Ans(Ans { id, version: ver, marker: false, mode: 4, stratum: s, kiss, auth: true, uid }));
+                    }
+                }
+            }
+        }
+        for ver in [4u8, 5] {
+            v.push(Ev::Ans(Ans { id: IdSel::Match, version: ver, marker: false, mode: 4, stratum: 1, kiss: Kiss::Unknown, auth: false, uid: UidSel::Match }));
+        }
+    }
+    v
+}
+
+#[derive(Default)]
+struct Local(BTreeMap<&'static str, u64>);
+impl Local {
+    fn inc(&mut self, k: &'static str) {
+        *self.0.entry(k).or_insert(0) += 1;
+    }
+    fn flush(self, ctx: &Ctx) {
+        for (k, v) in self.0 {
+            ctx.add(k, v);
+        }
+    }
+}
+
+/// The real source + everything the oracle remembers.
+struct World {
+    mode: Mode,
+    rig: Rig,
+    spec: SpecSet,
+    /// measurements attributed to each emitted request
+    per_request: Vec<u32>,
+}
+
+impl World {
+    fn new(mode: Mode) -> World {
+        World { mode, rig: Rig::new(mode), spec: SpecSet::initial(mode), per_request: Vec::new() }
+    }
+    /// ns since the most recent request was emitted
+    fn elapsed(&self) -> Option<u128> {
+        self.rig.requests.last().map(|r| tokio::time::Instant::now().duration_since(r.sent_at).as_nanos())
+    }
+}
+
+enum Step {
+    NotApplicable,
+    Ok(String),
+    Violation(&'static str, String),
+}
+
+async fn step(w: &mut World, ev: &Ev, st: &mut Local) -> Step {
+    match ev {
+        Ev::Wait(ms) => {
+            tokio::time::advance(std::time::Duration::from_millis(*ms)).await;
+            Step::Ok("waited".into())
+        }
+        Ev::Timer => {
+            let obs = w.rig.timer();
+            match obs.sent {
+                Some(i) => {
+                    w.per_request.push(0);
+                    let (ver, marker) = (w.rig.requests[i].version, w.rig.requests[i].marker);
+                    if let Err(e) = w.spec.poll(ver, marker) {
+                        // C12's subject; without a reference state C08 cannot continue
+                        return Step::Violation("C08:sent-version", e);
+                    }
+                    st.inc("requests_sent");
+                    Step::Ok(format!("sent v{ver}"))
+                }
+                None => {
+                    st.inc("timers_without_request");
+                    Step::Ok(format!("{:?}", obs.acts))
+                }
+            }
+        }
+        Ev::Ans(a) => {
+            let Some(elapsed) = w.elapsed() else {
+                return Step::NotApplicable;
+            };
+            if elapsed == WINDOW_NS {
+                // exactly on the boundary: the statement does not say which side it is on
+                return Step::NotApplicable;
+            }
+            let in_window = elapsed < WINDOW_NS;
+            let id_ok = a.id == IdSel::Match && (!w.mode.nts() || (a.uid == UidSel::Match && a.auth));
+            let before: View = w.rig.view();
+            let spec_before = w.spec.clone();
+            let Some((_bytes, obs)) = w.rig.deliver(a) else {
+                return Step::NotApplicable;
+            };
+            let after: View = w.rig.view();
+            let accepted = obs.accepted();
+            let f = Facts { fresh: id_ok && in_window, version: a.version, marker: a.marker, usable: a.usable_fields() };
+            let open = spec_before.any_open();
+            let version_ok = spec_before.expects(a.version);
+            let version_maybe = version_ok || (a.version == 3 && spec_before.expects(4));
+
+            // vacuity bookkeeping: which conjunct decided
+            if accepted {
+                st.inc("accepted");
+                if a.version == 3 {
+                    st.inc("accepted_v3_answer_to_v4_source");
+                }
+                if elapsed > 0 {
+                    st.inc("accepted_late_but_in_window");
+                }
+            } else if !id_ok {
+                st.inc("rejected_identifier");
+            } else if !in_window {
+                st.inc("rejected_late");
+            } else if !open {
+                st.inc("rejected_duplicate");
+            } else if !version_ok {
+                st.inc("rejected_version");
+            } else if a.mode != 4 {
+                st.inc("rejected_mode");
+            } else if a.stratum == 0 {
+                st.inc("rejected_kiss");
+            } else if a.stratum > 16 {
+                st.inc("rejected_stratum");
+            } else {
+                st.inc("rejected_other");
+            }
+
+            if let Err(e) = w.spec.answer(&f, accepted) {
+                let class = if !accepted {
+                    "C08:rejected-fresh-answer"
+                } else if !id_ok {
+                    "C08:accepted-wrong-identifier"
+                } else if !in_window {
+                    "C08:accepted-late"
+                } else if !open {
+                    "C08:accepted-duplicate"
+                } else if !version_maybe {
+                    "C08:accepted-unexpected-version"
+                } else if a.mode != 4 {
+                    "C08:accepted-non-server-mode"
+                } else if a.stratum == 0 {
+                    "C08:accepted-kiss"
+                } else if a.stratum > 16 {
+                    "C08:accepted-stratum"
+                } else {
+                    "C08:accepted-other"
+                };
+                return Step::Violation(class, format!("{} after {} ms: {e}", a.code(), elapsed / 1_000_000));
+            }
+            if accepted {
+                if obs.meas_calls != 2 || !obs.linked {
+                    return Step::Violation(
+                        "C08:measurement-shape",
+                        format!("{}: {} handle_measurement calls, pair carries this datagram's timestamps: {}", a.code(), obs.meas_calls, obs.linked),
+                    );
+                }
+                let n = w.per_request.len();
+                w.per_request[n - 1] += 1;
+                if w.per_request[n - 1] > 1 {
+                    return Step::Violation("C08:two-measurements-one-request", format!("request #{n} yielded {} measurements", w.per_request[n - 1]));
+                }
+                if after.reach & 1 != 1 {
+                    return Step::Violation("C08:reach-bit", "measurement delivered but the reach bit is not set".to_string());
+                }
+                if !obs.acts.is_empty() {
+                    return Step::Violation("C08:answer-actions", format!("accepted answer returned actions {:?}", obs.acts));
+                }
+            } else {
+                if after.reach != before.reach {
+                    return Step::Violation("C08:reach-bit", format!("no measurement but reach changed {:#b} -> {:#b}", before.reach, after.reach));
+                }
+                let not_fresh = !id_ok || !in_window || !open || !version_maybe;
+                if not_fresh && (after != before || !obs.acts.is_empty()) {
+                    return Step::Violation(
+                        "C08:nonfresh-changes-state",
+                        format!("{} is not a fresh answer (id_ok={id_ok} in_window={in_window} request_open={open} version_expected={version_maybe}) but changed the source: {:?} -> {:?}, actions {:?}", a.code(), before, after, obs.acts),
+                    );
+                }
+                if not_fresh {
+                    st.inc("nonfresh_left_state_untouched");
+                }
+            }
+            Step::Ok(format!("{}{:?}", if accepted { "accepted " } else { "not-used " }, obs.acts))
+        }
+    }
+}
+
+/// Canonical key. Components and abstractions:
+/// * `view`: complete behavioural private state of the source (see C12's key for what is
+///   left out and why). `tries` saturated at 3 (only `tries >= 3` is evaluated). The pending
+///   request's validity is kept as exact remaining nanoseconds while valid and collapsed to
+///   "expired" afterwards (the code only evaluates `validity >= now`; an expired request can
+///   never become valid again because time is monotone).
+/// * `spec`: set of reference states (expected version, request open).
+/// * `elapsed`: time since the most recent request, exact inside the window, collapsed to
+///   "outside" beyond it (the oracle only compares it with the window).
+/// * `nreq` (0, 1, >= 2): which identifier selectors are applicable.
+/// * `used`: whether the most recent request already yielded a measurement (oracle counter).
+#[derive(Clone, Debug, PartialEq, Eq, Hash)]
+struct Key {
+    view: View,
+    spec: SpecSet,
+    elapsed: Option<u128>,
+    nreq: u8,
+    used: u32,
+}
+
+fn key_of(w: &World) -> Key {
+    let mut view = w.rig.view();
+    view.tries = view.tries.min(3);
+    view.pending = view.pending.map(|ns| if ns < 0 { -1 } else { ns });
+    Key {
+        view,
+        spec: w.spec.clone(),
+        elapsed: w.elapsed().map(|e| if e > WINDOW_NS { u128::MAX } else { e }),
+        nreq: w.rig.requests.len().min(2) as u8,
+        used: w.per_request.last().copied().unwrap_or(0),
+    }
+}
+
+fn trace_of(mode: Mode, alpha: &[Ev], hist: &[u16], last: Option<&Ev>) -> String {
+    let mut codes: Vec<String> = hist.iter().map(|e| alpha[*e as usize].code()).collect();
+    if let Some(e) = last {
+        codes.push(e.code());
+    }
+    format!("{};{}", mode.name(), codes.join(","))
+}
+
+async fn replay_prefix(mode: Mode, alpha: &[Ev], hist: &[u16]) -> World {
+    let mut w = World::new(mode);
+    let mut sink = Local::default();
+    for e in hist {
+        let _ = step(&mut w, &alpha[*e as usize], &mut sink).await;
+    }
+    w
+}
+
+fn explore(ctx: &Ctx, mode: Mode, max_depth: u64) -> (rig::LevelStats, bool) {
+    let alpha = alphabet(mode);
+    let capped = std::sync::atomic::AtomicBool::new(false);
+    let init_key = super::block_on_paused(async { key_of(&World::new(mode)) });
+    let alpha_ref = &alpha;
+    let stats = rig::level_bfs(
+        init_key,
+        max_depth,
+        |rt, hist| {
+            rt.block_on(async {
+                let mut st = Local::default();
+                let mut out = Vec::new();
+                let w0 = replay_prefix(mode, alpha_ref, hist).await;
+                let base = key_of(&w0);
+                let mut cur = Some(w0);
+                for (ei, ev) in alpha_ref.iter().enumerate() {
+                    if cur.is_none() {
+                        cur = Some(replay_prefix(mode, alpha_ref, hist).await);
+                    }
+                    let w = cur.as_mut().unwrap();
+                    match step(w, ev, &mut st).await {
+                        Step::NotApplicable => {}
+                        Step::Violation(class, what) => {
+                            ctx.violation(class, what, trace_of(mode, alpha_ref, hist, Some(ev)));
+                            st.inc("transitions_violating");
+                            cur = None;
+                        }
+                        Step::Ok(_) => {
+                            let k = key_of(w);
+                            if k != base {
+                                ctx.distinct(common::hash_of(&(mode, &k)));
+                                cur = None;
+                            } else {
+                                st.inc("self_loops");
+                            }
+                            out.push((ei as u16, k));
+                        }
+                    }
+                }
+                st.flush(ctx);
+                out
+            })
+        },
+        |depth, width| {
+            if ctx.over_budget() {
+                ctx.cap_hit(&format!("mode {}: budget used up before depth {} (frontier {}); complete below", mode.name(), depth, width));
+                capped.store(true, std::sync::atomic::Ordering::Relaxed);
+                return false;
+            }
+            true
+        },
+    );
+    ctx.add("states", stats.states);
+    ctx.add("transitions", stats.transitions);
+    ctx.add("evaluations", stats.transitions);
+    ctx.max("max_depth", stats.max_depth);
+    ctx.note(
+        &format!("mode_{}", mode.name()),
+        &format!("alphabet {} events, {} states, {} transitions, depth {}, fixpoint {}", alpha.len(), stats.states, stats.transitions, stats.max_depth, stats.fixpoint),
+    );
+    (stats, capped.load(std::sync::atomic::Ordering::Relaxed))
+}
+
+fn replay(ctx: &Ctx, trace: &str) -> String {
+    let Some((m, evs)) = trace.split_once(';') else {
+        return "bad trace".into();
+    };
+    let Some(mode) = Mode::parse(m) else {
+        return "bad mode".into();
+    };
+    super::block_on_paused(async {
+        let mut w = World::new(mode);
+        let mut st = Local::default();
+        let mut obs = Vec::new();
+        for code in evs.split(',').filter(|s| !s.is_empty()) {
+            let Some(ev) = Ev::parse(code) else {
+                obs.push(format!("{code}=?"));
+                continue;
+            };
+            match step(&mut w, &ev, &mut st).await {
+                Step::NotApplicable => obs.push(format!("{code}=n/a")),
+                Step::Ok(o) => obs.push(format!("{code}={o}|meas={}", w.rig.total_measurement_calls())),
+                Step::Violation(class, what) => {
+                    ctx.violation(class, what.clone(), trace);
+                    obs.push(format!("{code}=VIOLATION {class}: {what}"));
+                    break;
+                }
+            }
+        }
+        obs.join(" ; ")
+    })
+}
+
+#[test]
+fn check() {
+    let ctx = Ctx::new("C08");
+    if let Some(t) = common::replay_trace() {
+        let a = replay(&ctx, &t);
+        let b = replay(&ctx, &t);
+        common::report_replay("C08", &a, &b, ctx.violation_count() > 0);
+        return;
+    }
+    let depth = if ctx.quick() { 6 } else { 10 };
+    ctx.rule(&format!(
+        "Every event sequence of length <= {depth} (merged on a canonical key) over the real NtpSource in modes plain V4, V5, \
+         automatic, NTS-V4, NTS-V5. Events: timer, wait 4.9 s, wait 0.2 s; plain: 288 answer datagrams = identifier \
+         {{matching, previous request, zero, unrelated}} x {{v3, v4, v4+marker, v5}} x mode {{server, client, symmetric}} x \
+         {{stratum 1, 16, 17, KISS DENY, KISS RATE, KISS XXXX}}; NTS: 54 authenticated answers = identifier {{matching, previous, \
+         unrelated}} x UID {{matching, wrong, absent}} x {{v4, v5}} x {{usable, stratum 17, KISS}} + 2 unauthenticated. \
+         Distinct & non-trivial = a (mode, canonical state) reached by a state-changing transition."
+    ));
+    ctx.assume("the poll window is 5 s (the statement gives no number); elapsed times used are 0, 0.2 k, 4.9 + 0.2 k s — never exactly 5 s");
+    ctx.assume("'expected protocol version' is the one the reference automaton of C12 (written from the C12 statement) expects; an NTPv3 answer to a source expecting NTPv4 may be used or ignored (statement silent; observed: plain-V4 state uses it, upgrade state ignores it)");
+    ctx.assume("a measurement = one (outgoing, incoming) pair of handle_measurement calls");
+    let mut complete = true;
+    for mode in Mode::ALL {
+        let (_s, capped) = explore(&ctx, mode, depth);
+        complete &= !capped;
+    }
+    ctx.sample("v4;T,A:M:4:-:4:1:X:-:-,A:M:4:-:4:1:X:-:- -> first accepted, byte-identical duplicate ignored");
+    ctx.sample("v4;T,W4900,W200,A:M:4:-:4:1:X:-:- -> 5.1 s after the request: ignored");
+    ctx.sample("v4;T,T,A:S:4:-:4:1:X:-:- -> answer to the previous request: ignored");
+    ctx.sample("auto;T,A:M:4:m:4:0:D:-:-,A:M:5:-:4:1:X:-:- -> KISS with marker switches to v5; the v5 answer to the still-open request is then the expected version");
+    ctx.exhaustive(complete);
+    ctx.finish();
+}
